@@ -29,6 +29,7 @@ import (
 	"github.com/thought-machine/please/src/generate"
 	"github.com/thought-machine/please/src/metrics"
 	"github.com/thought-machine/please/src/process"
+	"github.com/thought-machine/please/src/verifhook"
 	"github.com/thought-machine/please/src/version"
 )
 
@@ -212,6 +213,7 @@ func buildTarget(state *core.BuildState, target *core.BuildTarget, runRemotely b
 		state.LogBuildResult(target, core.TargetBuilding, "Acquiring target lock...")
 		file := core.AcquireExclusiveFileLock(target.BuildLockFile())
 		defer core.ReleaseFileLock(file)
+		verifhook.Point("build.locked")
 		state.LogBuildResult(target, core.TargetBuilding, "Preparing...")
 
 		// Ensure we have downloaded any previous dependencies if that's relevant.
@@ -281,6 +283,7 @@ func buildTarget(state *core.BuildState, target *core.BuildTarget, runRemotely b
 		if err := prepareDirectories(target); err != nil {
 			return fmt.Errorf("Error preparing directories for %s: %s", target.Label, err)
 		}
+		verifhook.Point("build.prepared")
 
 		// If we fail to hash our outputs, we get a nil hash so we'll attempt to pull the outputs from the cache
 		//
@@ -324,6 +327,7 @@ func buildTarget(state *core.BuildState, target *core.BuildTarget, runRemotely b
 		if err != nil {
 			return err
 		}
+		verifhook.Point("build.ran")
 
 		// Add optional outputs to target metadata
 		metadata.OptionalOutputs = make([]string, 0)
@@ -374,15 +378,18 @@ func buildTarget(state *core.BuildState, target *core.BuildTarget, runRemotely b
 	} else if err := StoreTargetMetadata(target, metadata); err != nil {
 		return fmt.Errorf("failed to store target build metadata for %s: %w", target.Label, err)
 	}
+	verifhook.Point("build.metadataStored")
 
 	state.LogBuildResult(target, core.TargetBuilding, "Collecting outputs...")
 	outs, outputsChanged, err := moveOutputs(state, target)
 	if err != nil {
 		return fmt.Errorf("error moving outputs for target %s: %w", target.Label, err)
 	}
+	verifhook.Point("build.outputsMoved")
 	if _, err = calculateAndCheckRuleHash(state, target); err != nil {
 		return fmt.Errorf("failed to calculate hash: %w", err)
 	}
+	verifhook.Point("build.hashRecorded")
 	if outputsChanged {
 		target.SetState(core.Built)
 	} else {
@@ -404,6 +411,7 @@ func buildTarget(state *core.BuildState, target *core.BuildTarget, runRemotely b
 			}
 		}
 		storeInCache(state.Cache, target, newCacheKey, outs)
+		verifhook.Point("build.cached")
 	}
 	// Clean up the temporary directory once it's done.
 	if state.CleanWorkdirs {
@@ -755,6 +763,7 @@ func moveOutput(state *core.BuildState, target *core.BuildTarget, tmpOutput, rea
 		if err := fs.RemoveAll(realOutput); err != nil {
 			return true, err
 		}
+		verifhook.Point("build.moveOutput.removedOld")
 	}
 	state.PathHasher.MoveHash(tmpOutput, realOutput)
 	// Check if we need a directory for this output.
@@ -770,6 +779,7 @@ func moveOutput(state *core.BuildState, target *core.BuildTarget, tmpOutput, rea
 		if err := os.Rename(tmpOutput, realOutput); err != nil {
 			return true, err
 		}
+		verifhook.Point("build.moveOutput.moved")
 	} else {
 		if err := fs.RecursiveCopy(tmpOutput, realOutput, target.OutMode()); err != nil {
 			return true, err
